@@ -1,6 +1,6 @@
 (* C18 -- Protobuf merge semantics, on the schema-directed model of the generated decoders (Msg.v).
    Only statements, each closed by [exact] of a lemma proved in Proofs/, with Print Assumptions beneath. *)
-From PVPb Require Import Wire Codec Msg Proofs.WireP Proofs.CodecP Proofs.TotalP Proofs.DepthP Proofs.ShapeP Proofs.MergeP Proofs.MergeCor Proofs.UnknownP Proofs.InterleaveP.
+From PVPb Require Import Wire Codec Msg Proofs.WireP Proofs.CodecP Proofs.TotalP Proofs.DepthP Proofs.ShapeP Proofs.MergeP Proofs.MergeCor Proofs.UnknownP Proofs.InterleaveP Conform Proofs.EngineP Proofs.ConformP Proofs.InterleaveAllP.
 Open Scope Z_scope.
 
 (* C18_concat: decoding e1 ++ e2 is decoding e1 and merging e2 into the result -- every schema, every message,
@@ -186,9 +186,51 @@ Theorem C18_interleave_swap : forall (sc : schema) i (fs : msgdesc) e1 e2 a xs s
 Proof. exact decode_swap. Qed.
 Print Assumptions C18_interleave_swap.
 
-(* NOT PROVED (validated by the generated-message correspondence and the reference merge_spec on every run):
-   C18_interleave : every interleaving of the records of e1 and e2 that preserves the relative order of records with
-     the same field number (same oneof) decodes to the same message -- such interleavings are generated by the swaps of
-     C18_interleave_swap; the closure (a permutation argument over record lists) is not formalised;
+(* C18_interleave: the closure.  Records are the abstract records of Conform.v (scalar / packed run / length-delimited /
+   unknown, enc_crec = their bytes); [mpos fs r] is the struct slot a record is routed to (the position of the field
+   whose number it carries -- all members of a oneof share one slot -- or None for an undeclared number);
+   [proj (mpos fs) p rs] is the subsequence of the records of slot p.  Behind ANY successfully decoded prefix e1, two
+   record lists with the same per-slot subsequences -- i.e. any permutation that keeps the relative order of the
+   records of the same field (same oneof); unknown records may go anywhere -- decode to the same message, provided
+   the records are accepted at all: slot by slot, the chain of merge_field arms runs on the records of that slot in
+   their order ([fchain (mstep ...)], x p = what it makes of slot p), and undeclared records are skippable unknown
+   fields.  The allocation ghost counters may differ (a' existential): the order of allocations changes. *)
+Theorem C18_interleave : forall (sc : schema) i (fs : msgdesc), nth_error sc i = Some fs ->
+  forall e1 a xs s1 rs rs' (x : nat -> val),
+    msg_decode sc i (mkR e1 a) = OOk (VL NMsg xs) s1 -> length xs = length fs ->
+    well_routed fs rs -> well_routed fs rs' ->
+    (forall p, (p < length fs)%nat -> proj (mpos fs) p rs = proj (mpos fs) p rs') ->
+    (forall p, (p < length fs)%nat ->
+       fchain (mstep sc inner_depth ctx_default fs) p (nth p xs (VI 0)) (proj (mpos fs) p rs) (x p)) ->
+    exists v a1 a2, msg_decode sc i (mkR (e1 ++ enc_crecs rs) a) = OOk v (mkR [] a1) /\
+                    msg_decode sc i (mkR (e1 ++ enc_crecs rs') a) = OOk v (mkR [] a2).
+Proof. exact decode_interleave. Qed.
+Print Assumptions C18_interleave.
+
+(* the same for the rearrangements generated by adjacent swaps of two records that are not routed to the same slot
+   (induction over the swaps: each one keeps every per-slot subsequence) *)
+Theorem C18_interleave_swaps : forall (sc : schema) i (fs : msgdesc), nth_error sc i = Some fs ->
+  forall e1 a xs s1 rs rs' (x : nat -> val),
+    msg_decode sc i (mkR e1 a) = OOk (VL NMsg xs) s1 -> length xs = length fs -> well_routed fs rs -> reorder fs rs rs' ->
+    (forall p, (p < length fs)%nat ->
+       fchain (mstep sc inner_depth ctx_default fs) p (nth p xs (VI 0)) (proj (mpos fs) p rs) (x p)) ->
+    exists v a1 a2, msg_decode sc i (mkR (e1 ++ enc_crecs rs) a) = OOk v (mkR [] a1) /\
+                    msg_decode sc i (mkR (e1 ++ enc_crecs rs') a) = OOk v (mkR [] a2).
+Proof. exact decode_reorder. Qed.
+Print Assumptions C18_interleave_swaps.
+
+(* the engine behind both (and behind C06_in): any loop body over a tuple of slots whose records are routed *)
+Theorem C18_engine : forall (sc : schema) dm j c (fs : msgdesc), nth_error sc j = Some fs -> c <= recursion_limit ->
+  forall rs xs0 (x : nat -> val), length xs0 = length fs ->
+    Forall (routed (length fs) (mpos fs) (mskip c)) rs -> Forall (fun r => tag_ok (tag_of r)) rs ->
+    (forall p, (p < length fs)%nat -> fchain (mstep sc dm c fs) p (nth p xs0 (VI 0)) (proj (mpos fs) p rs) (x p)) ->
+    exists xs', rsteps (rbody sc (S dm) j c) (VL NMsg xs0) rs (VL NMsg xs') /\ length xs' = length fs /\
+                forall p, (p < length fs)%nat -> nth p xs' (VI 0) = x p.
+Proof. exact msg_engine. Qed.
+Print Assumptions C18_engine.
+(* non-vacuity: Proofs/InterleaveAllP.v interleave_nonvacuous (ten records of demo_schema rearranged, equal projections,
+   different bytes, same decode result). *)
+
+(* NOT PROVED (validated by the reference merge_spec on every run):
    C18_merge_spec : msg_decode sc i (enc_msg x ++ enc_msg y) = OK (merge_spec x y) for typed values x y (the per-field
      content of merge_spec is C18_last_wins / _repeated_order / _oneof_replace / _map_replace / _embedded_merge). *)
